@@ -518,6 +518,8 @@ class Interp:
         if re.fullmatch(r'[\w:<>, ]+', s) and s.split('::')[-1][:1].isupper():
             ty, variant = self.split_variant(s)
             return Agg(ty, variant, [])
+        m = re.fullmatch(r'([A-Za-z_][\w:]*) \{\{\s*\}\}', s)
+        if m: return Agg(m.group(1).split('::')[-1], None, [])     # empty struct constant
         raise Unsupported("const " + s)
 
     def rvalue(self, fr, rv):
@@ -574,6 +576,10 @@ class Interp:
                 # the poll body of the coroutine created in fn F is F::{closure#k} (the closure whose first parameter is the pinned coroutine)
                 cands = [n for n in self.fns if n.startswith(fr.fn.name + '::{closure#') and n.count('{closure#') == fr.fn.name.count('{closure#') + 1
                          and self.fns[n].params and self.fns[n].params[0].strip().startswith('_1: Pin<&mut {')]
+                if len(cands) > 1:
+                    # several async blocks / closures in one fn: match the source span in the pinned parameter type
+                    loc = re.search(r'@([^ ]+:\d+:\d+: \d+:\d+)', rv[1])
+                    if loc: cands = [n for n in cands if ('@' + loc.group(1)) in self.fns[n].params[0]]
                 co.body = cands[0] if len(cands) == 1 else None
                 return co
             return Closure(rv[1], ups, fr.fn.crate)
@@ -702,6 +708,11 @@ class Interp:
             # truncating division; MIR asserts the divisor non-zero beforehand
             ty = self.int_type_of(fr, rv)
             if ty and INT_RANGES[ty][0] == 0:
+                if op == 'Rem' and isinstance(b, int) and 0 < b <= 16 and isinstance(a, Term) and a.s.startswith('hash_'):
+                    # bucket index of an uninterpreted hash: one path per bucket (keeps object names and partition ids concrete)
+                    for k in range(b - 1):
+                        if self.branch(Term("(= (mod %s %d) %d)" % (a.s, b, k), 'Bool')): return k
+                    return b - 1
                 return Term("(%s %s %s)" % ('div' if op == 'Div' else 'mod', smt_int(a), smt_int(b)), 'Int')
             sa, sb = smt_int(a), smt_int(b)
             q = "(ite (>= %s 0) (div %s %s) (- (div (- %s) %s)))" % (sa, sa, sb, sa, sb)   # truncation toward zero for b>0 or b<0 alike
